@@ -97,6 +97,7 @@ def decide_in_callers(facts, body, bi, j, max_depth=3):
     frontier = [(body.did, 1)]
     seen = set()
     decided = []
+    pending = {}
     while frontier:
         did, depth = frontier.pop(0)
         cs = [c for c in callers_of(facts, did) if not facts.is_test(c)]
@@ -117,9 +118,16 @@ def decide_in_callers(facts, body, bi, j, max_depth=3):
                 if blk.get("origin") != body.did or blk.get("orig_bb") != bi or y["j"] != j:
                     continue
                 nm = c.id.rsplit("::", 1)[-1]
+                private = not str(c.vis).startswith("Public")
                 if not y["ok"]:
+                    # a private caller that itself only hands on what it was given (`grow_unshared_vec(off, additional)`): its callers decide
+                    if private and depth < max_depth and [x for x in callers_of(facts, c.did) if not facts.is_test(x)] and c.kind in ("fn", "assoc_fn") \
+                            and any(c.locals[i]["ty"] in ("usize", "*mut u8", "*const u8") for i in range(1, c.arg_count + 1)):
+                        frontier.append((c.did, depth + 1))
+                        pending[c.did] = "in the context of %s: %s" % (nm, y["text"])
+                        continue
                     return False, "in the context of %s: %s" % (nm, y["text"])
-                if y.get("defer") and depth < max_depth and not str(c.vis).startswith("Public"):
+                if y.get("defer") and depth < max_depth and private:
                     frontier.append((c.did, depth + 1))
                 else:
                     decided.append(nm)
@@ -278,8 +286,8 @@ def promotable_end(res, facts):
             mutable.add(name)
     if len(mutable) < 1:
         raise RuleError("no data-mutable (promotable) vtable found")
-    n = 0
-    for b in facts.fn_bodies():
+    def judge(b):
+        out = []
         eb = ExprBuilder(b, facts, inline=True)
         cfg = cfg_of(b)
         cnt = {}
@@ -295,7 +303,6 @@ def promotable_end(res, facts):
         for (bi, si, fld, E, base, loc_l) in writes:
             if fld != "len":
                 continue
-            n += 1
             k0 = "%s|Bytes.len" % b.id
             c = cnt.get(k0, 0)
             cnt[k0] = c + 1
@@ -358,9 +365,26 @@ def promotable_end(res, facts):
                             names = [y[1] for y in walk(vt) if y[0] == "static"]
                             if names and not (set(names) & mutable) and cfg.loc_dominates((bj, sj), (bi, si)):
                                 ok, how = True, "fresh handle of the non-promotable family %s" % names[0]
+            out.append((key, ok, how if ok else "Bytes.len = %s: an unshared Vec-backed handle would no longer end at the end of its allocation, so its capacity "
+                                                "can no longer be recovered (wrong dealloc size)" % fmt_expr(E)[:80], (bi, si)))
+        return out
+
+    n = 0
+    from .inline import views as _views
+    for b in facts.fn_bodies():
+        vs = judge(b)
+        if any(not v[1] for v in vs) and b.kind in ("fn", "assoc_fn"):
+            # the test that singles out the promotable representation may live in a predicate (`self.is_promotable()`): judge with it spliced in
+            for ib in _views(facts, b):
+                alt = judge(ib)
+                if alt and all(v[1] for v in alt) and len(alt) >= len(vs):
+                    vs = [(k, ok, how + " (helpers inlined)", (None, None)) for (k, ok, how, _) in alt][:max(len(vs), 1)]
+                    break
+        for (key, ok, how, (bi, si)) in vs:
+            n += 1
+            loc = b.loc(bi, si) if bi is not None and bi < len(b.blocks) else b.loc()
             if ok:
-                res.ok(key, b.loc(bi, si), how, nontrivial=True)
+                res.ok(key, loc, how, nontrivial=True)
             else:
-                res.bad(key, b.loc(bi, si), "Bytes.len = %s: an unshared Vec-backed handle would no longer end at the end of its allocation, so its capacity "
-                                            "can no longer be recovered (wrong dealloc size)" % fmt_expr(E)[:80])
+                res.bad(key, loc, how)
     res.floor("bytes_len_writes", n, 5)
